@@ -55,11 +55,6 @@ def rule_bits(c, prog):
         if not m:
             raise core.AnchorMissing(f"docs/binary.md: section ### {ty} not found")
         sec = m.group(1)
-        ex = re.search(r"encoded `" + ty + r"` with values (.*?) looks? like this: `([0-9A-Fa-f ]+)`", sec)
-        if not ex:
-            raise core.AnchorMissing(f"docs/binary.md: worked example of {ty} not found")
-        sets = [re.findall(r"[A-Z][a-z]*", grp) for grp in re.findall(r"`([^`]*)`", ex.group(1))]
-        want = [int(x, 16) for x in ex.group(2).split()]
         # flag constants of the code: consts named like the flags with integer values
         bits = {}
         from sa import wire as _w, sym as _s
@@ -82,6 +77,19 @@ def rule_bits(c, prog):
                     bits[path.rsplit("::", 1)[-1]] = ints[0]
         if len(bits) < 3:
             raise core.AnchorMissing(f"{mod}: flag constants not found ({bits})")
+        # worked examples: bytes preceded by as many named sets (code spans made of flag names only) as there are bytes
+        sets, want = [], []
+        for lead, hx, raw in spec.hex_examples(sec):
+            named = []
+            for grp in spec.code_spans(lead):
+                toks = re.findall(r"[A-Za-z]+", grp)
+                if toks and all(t.upper() in bits for t in toks) and re.fullmatch(r"[A-Za-z, ]+", grp):
+                    named.append(toks)
+            if named and len(named) == len(raw):
+                sets += named
+                want += list(raw)
+        if not sets:
+            raise core.AnchorMissing(f"docs/binary.md: worked example of {ty} not found")
         got = []
         for names in sets:
             v = 0
